@@ -40,6 +40,8 @@ def rule_level_table(ctx, prefix, fi):
     right only without a level limit."""
     import ast
     from .model import norm, walk_no_nested, loc
+    if fi.module.relpath.startswith("amr_kitchen/chk2plt/"):
+        return      # the checkpoint reader has no level limit: all its per-level tables hold every level
     bad = []
     for n in walk_no_nested(fi.node):
         if isinstance(n, ast.Call) and isinstance(n.func, ast.Name) and n.func.id == "len" and len(n.args) == 1 \
